@@ -12,6 +12,7 @@
 -/
 import Dirk.Spec.Perms
 import Dirk.Model.Instance
+import Dirk.Lemmas.PreCheck
 import Dirk.Lemmas.RegexAnchor
 
 namespace Dirk
@@ -156,10 +157,10 @@ theorem C07_refused_no_effect_prop (s : Inst) (c : String) (a : Addr) (d : PropD
   · rfl
   · simp [preCheck, hres, hden]
 
-theorem C07_refused_no_effect_sign (s : Inst) (c ip : String) (a : Addr) (d : SignData) (sf : Bool)
+theorem C07_refused_no_effect_sign (s : Inst) (c ip : String) (a : Addr) (d : SignData) (sf lf : Bool)
     (acct : Account) (hres : fetchAccount s.cfg a = some acct)
     (hden : check s.cfg.access c (acct.wallet ++ "/" ++ acct.name) opSign = false) :
-    signGeneric s c ip a d sf = (s, ⟨.denied, none⟩) := by
+    signGeneric s c ip a d sf lf = (s, ⟨.denied, none⟩) := by
   unfold signGeneric
   split
   · rfl
@@ -169,6 +170,7 @@ theorem C07_refused_no_effect_sign (s : Inst) (c ip : String) (a : Addr) (d : Si
 theorem C07_refused_no_effect_atts (s : Inst) (c : String) (items : List (Addr × AttData)) (f : Faults)
     (sf : List Nat) (h : (preCheckAll s.cfg c opAttest items).any isErr = true) :
     (signAtts s c items f sf).1 = s := by
+  have h := preCheckAll_any_isErr_mono _ _ _ _ h f.lockStateFail
   unfold signAtts
   simp only
   repeat' split
@@ -196,8 +198,10 @@ theorem C07_resolved_account (s : Inst) (c : String) (a : Addr) (d : AttData) (f
         · rename_i hchk
           split at hpc
           · cases hpc
-          · injection hpc with hpc; subst hpc
-            exact ⟨acct', hfa, by simpa using hchk⟩
+          · split at hpc
+            · cases hpc
+            · injection hpc with hpc; subst hpc
+              exact ⟨acct', hfa, by simpa using hchk⟩
 
 /-- a case-insensitive literal -/
 def lit (s : String) : Re := s.toList.foldr (fun c r => Re.cat (Re.chr true c) r) Re.eps
